@@ -61,6 +61,9 @@ class NTPServer(Service, discriminator="ntp-server"):
 
         :return: True if valid NTP request else False.
         """
+        if not super().receive(payload=payload, session_id=session_id, **kwargs):
+            return False
+
         if not (isinstance(payload, NTPPacket)):
             self.sys_log.warning(f"{self.name}: Payload is not a NTPPacket")
             self.sys_log.debug(f"{self.name}: {payload}")
